@@ -58,7 +58,8 @@ impl ColorPalette {
 
     /// Total number of colors in the palette.
     pub fn num_colors(&self) -> u32 {
-        self.iter().count() as u32
+        // (not `self.iter().count()`: that walks every entry above index 255)
+        (self.low.iter().flatten().count() + self.high.len()) as u32
     }
 
     /// Look up entry at given index.
